@@ -2,9 +2,9 @@ package main
 
 import (
 	"fmt"
-	"strings"
 	"os"
 	"path/filepath"
+	"strings"
 
 	"github.com/oxia-db/oxia/proto"
 	"github.com/oxia-db/oxia/server"
